@@ -4,4 +4,4 @@ set -e
 cd "$(dirname "$0")"
 /venv/bin/python -m harness.zcv.extract
 cd lean
-lake build ZCV zcdrv
+lake build ZCV zcdrv zcdrv2
